@@ -86,11 +86,15 @@ func c17NewHandlerErr(k int) error {
 }
 
 var c17Kinds = map[string]string{"num": "KNum", "id": "KId", "irrnum": "KIrrNum", "irrid": "KIrrId",
-	"realtime": "KRealtime", "tripper": "KTripper", "timegator": "KTimeGator", "numgator": "KNumGator", "minfilter": "KMinFilter"}
+	"realtime": "KRealtime", "tripper": "KTripper", "timegator": "KTimeGator", "numgator": "KNumGator", "minfilter": "KMinFilter",
+	// Y1: the same gators, built by package blockstream from its options and consulted by Source.readStream (c17bs.go)
+	"bsnumgator": "KNumGator", "bstimegator": "KTimeGator"}
 
-func c17UsesWallClock(kind string) bool { return kind == "realtime" || kind == "timegator" }
+func c17UsesWallClock(kind string) bool {
+	return kind == "realtime" || kind == "timegator" || kind == "bstimegator"
+}
 func c17ReadsTime(kind string) bool {
-	return kind == "realtime" || kind == "timegator" || kind == "tripper"
+	return kind == "realtime" || kind == "timegator" || kind == "tripper" || kind == "bstimegator"
 }
 func c17AssertsForkable(kind string) bool { return kind == "irrnum" || kind == "irrid" }
 
@@ -293,6 +297,26 @@ func c17Exec(raw json.RawMessage) (*Case, error) {
 		}
 
 		wall := c17UsesWallClock(in.Kind)
+		// Y1: the whole case goes through a real blockstream.Source first (c17bs.go); the loop below then only
+		// records, per sent block, whether it reached the handler
+		var bsF []int
+		if c17IsBlockstream(in.Kind) {
+			var stamp func(i int)
+			if wall {
+				stamp = func(i int) {
+					blks[i].Timestamp = timestamppb.New(time.Now().Add(-time.Duration(in.Events[i].AgoMs) * time.Millisecond))
+				}
+			}
+			var why []string
+			var anomaly string
+			bsF, why, anomaly = c17RunBlockstream(&in, blks, stamp)
+			obs.Why = append(obs.Why, why...)
+			if anomaly != "" {
+				obs.Panic = anomaly
+				return
+			}
+			wall = false // the blocks keep the time they were sent with
+		}
 		for i := range in.Events {
 			calls = calls[:0]
 			trips = 0
@@ -305,7 +329,9 @@ func c17Exec(raw json.RawMessage) (*Case, error) {
 				blks[i].Timestamp = timestamppb.New(time.Now().Add(-time.Duration(in.Events[i].AgoMs) * time.Millisecond))
 			}
 			snapshot(i)
-			if pass != nil {
+			if bsF != nil {
+				f = bsF[i]
+			} else if pass != nil {
 				if pass(blks[i]) {
 					f = 1
 				}
@@ -397,7 +423,7 @@ func c17Class(in *c17Input, obs *c17Obs) string {
 	}
 	tc := "-"
 	switch in.Kind {
-	case "num", "irrnum", "numgator", "minfilter":
+	case "num", "irrnum", "numgator", "minfilter", "bsnumgator":
 		reach := 0
 		for _, e := range in.Events {
 			if e.Num >= in.TNum {
@@ -574,6 +600,12 @@ func c17Gen(r *Rng, i int, tier string) any {
 	}
 	kinds := []string{"num", "num", "id", "id", "irrnum", "irrnum", "irrid", "irrid", "irrid", "realtime", "tripper", "timegator", "numgator", "minfilter"}
 	in := c17Input{Kind: kinds[r.Intn(len(kinds))]}
+	// Y1: the gators as wired by package blockstream (about one case in ten)
+	bs := ""
+	if r.Chance(10) {
+		bs = []string{"bsnumgator", "bsnumgator", "bstimegator"}[r.Intn(3)]
+		in.Kind = bs[2:] // drawn like the plain gator case, renamed at the end
+	}
 	in.First = c17Firsts[r.Intn(len(c17Firsts))]
 	in.ThrMs = []int64{3_600_000, 600_000, 0, -3_600_000, 86_400_000, 1000}[r.Intn(6)]
 	in.Events = c17GenEvents(r, in.Kind, in.First, in.ThrMs)
@@ -676,6 +708,10 @@ func c17Gen(r *Rng, i int, tier string) any {
 			}
 		}
 	}
+	if bs != "" {
+		in.Kind = bs
+		in.ObjKinds = nil // the object comes from the source (no preprocessor: nil), not from the case
+	}
 	return in
 }
 
@@ -732,6 +768,12 @@ func c17Corpus() []any {
 		// W3: the wall clock close to the threshold: at it and above = not real time, 10 s below = real time
 		c17Input{Kind: "realtime", ThrMs: H, Events: []c17Ev{{"00000002a", 2, 1, H + 59_000}, {"00000003a", 3, 1, H + 1}, {"00000004a", 4, 1, H}, {"00000005a", 5, 1, H - 10_000}, {"00000006a", 6, 1, H}}},
 		c17Input{Kind: "timegator", ThrMs: 1000, Events: []c17Ev{{"00000002a", 2, 1, 31_000}, {"00000003a", 3, 1, 1400}, {"00000004a", 4, 1, 1000}, {"00000005a", 5, 1, -9000}, {"00000006a", 6, 1, 1000}}},
+		// Y1: the same gators through blockstream.NewSource(..., WithNumGator / WithTimeThresholdGator) and Source.Run
+		c17Input{Kind: "bsnumgator", TNum: 3, GateType: 0, Events: low},
+		c17Input{Kind: "bsnumgator", TNum: 3, GateType: 1, Events: low},
+		c17Input{Kind: "bsnumgator", TNum: 4, GateType: 0, Events: []c17Ev{{"2a", 2, 1, 0}, {"4a", 4, 1, 0}, {"3b", 3, 1, 0}, {"4b", 4, 1, 0}, {"5a", 5, 1, 0}}},
+		c17Input{Kind: "bstimegator", ThrMs: H, Events: ages},
+		c17Input{Kind: "bstimegator", ThrMs: 1000, Events: []c17Ev{{"00000002a", 2, 1, 31_000}, {"00000003a", 3, 1, 1400}, {"00000004a", 4, 1, 1000}, {"00000005a", 5, 1, -9000}, {"00000006a", 6, 1, 1000}}},
 	}
 }
 
